@@ -34,3 +34,5 @@ BREAKING.append(('metadata offsets zipped with the probes that have the file', '
 BREAKING.append(('probe directories merged in reverse order', G, "        self.subdirs = [Path(subdir) for subdir in subdirs]", "        self.subdirs = [Path(subdir) for subdir in subdirs][::-1]", ['C11.A1']))
 BREAKING.append(('probe directories de-duplicated through a set', G, "        self.subdirs = [Path(subdir) for subdir in subdirs]", "        self.subdirs = list({Path(subdir) for subdir in subdirs})", ['C11.A1']))
 EQUIVALENT.append(('probe directories through map', G, "        self.subdirs = [Path(subdir) for subdir in subdirs]", "        self.subdirs = list(map(Path, subdirs))"))
+EQUIVALENT.append(('identity order when neighbours are ordered', G, "    # We sort by increasing time.\n", "    if np.all(spike_times_concat[1:] >= spike_times_concat[:-1]):\n        return spike_times_concat, np.arange(spike_times_concat.shape[0])\n"))
+BREAKING.append(('identity order when unsigned differences look non-negative', G, "    # We sort by increasing time.\n", "    if (np.diff(spike_times_concat) >= 0).all():\n        return spike_times_concat, np.arange(len(spike_times_concat))\n", ['C11.A1']))
